@@ -345,7 +345,19 @@ func ruleDevPropKind(c *Ctx) []Obligation {
 			found := false
 			for _, b := range m.fn.Blocks {
 				ifi, isIf := b.Instrs[len(b.Instrs)-1].(*ssa.If)
-				if !isIf || !b.Dominates(sb) || found {
+				if !isIf || found {
+					continue
+				}
+				// the test dominates the store, or is a later operand of a && whose first operand does (the operands
+				// after the first sit in blocks of their own, entered from the one before)
+				domOK := b.Dominates(sb)
+				for p, d := b, 0; !domOK && d < 4 && len(p.Preds) == 1; d++ {
+					p = p.Preds[0]
+					if p.Dominates(sb) {
+						domOK = true
+					}
+				}
+				if !domOK {
 					continue
 				}
 				// a test of the add/replace arm, not one that every deviation passes (target found, path absolute)
@@ -397,11 +409,32 @@ func ruleDevPropKind(c *Ctx) []Obligation {
 						})
 					}
 				}
+				if !kind {
+					// … or the kind was tested on the way to this test (`!can && spec.P != unset`)
+					for _, g := range guardsAt(b) {
+						backSliceCond(g.Cond, func(x ssa.Value) {
+							if _, f, base := loadedField(x); f == fKind && base != nil && sameObject(resolveArg(base), m.target) {
+								kind = true
+							}
+							if call, isC := x.(*ssa.Call); isC {
+								if cal := call.Call.StaticCallee(); cal != nil && c.isRepoFn(cal) && len(call.Call.Args) > 0 && sameObject(resolveArg(call.Call.Args[0]), m.target) {
+									eachInstr(cal, func(in ssa.Instruction) {
+										if v, isV := in.(ssa.Value); isV {
+											if _, f, _ := loadedField(v); f == fKind {
+												kind = true
+											}
+										}
+									})
+								}
+							}
+						})
+					}
+				}
 				if !kind || !propSeen {
 					continue
 				}
 				for _, s := range b.Succs {
-					if s != sb && !blockReaches(s, sb, avoid) && errorMadeFrom(s, avoid) {
+					if s != sb && !blockReaches(s, sb, avoid) && errorMadeUnder(s, avoid) && !m.storesToTargetFrom(s, avoid) {
 						found = true
 					}
 				}
@@ -895,4 +928,53 @@ func helperReturns(v ssa.Value) []ssa.Value {
 		}
 	}
 	return out
+}
+
+// errorMadeUnder: an error value is made in a block that s dominates — on the branch itself, not somewhere the
+// branch merely leads on to (the next case of a switch, the statements after an if).
+func errorMadeUnder(s *ssa.BasicBlock, avoid map[*ssa.BasicBlock]bool) bool {
+	seen := map[*ssa.BasicBlock]bool{}
+	stack := []*ssa.BasicBlock{s}
+	for len(stack) > 0 {
+		x := stack[len(stack)-1]
+		stack = stack[:len(stack)-1]
+		if seen[x] || avoid[x] || !s.Dominates(x) {
+			continue
+		}
+		seen[x] = true
+		for _, in := range x.Instrs {
+			if v, isV := in.(ssa.Value); isV && isErrorType(v.Type()) {
+				switch in.(type) {
+				case *ssa.Call, *ssa.MakeInterface:
+					return true
+				}
+			}
+		}
+		stack = append(stack, x.Succs...)
+	}
+	return false
+}
+
+// storesToTargetFrom: from block s (not passing the avoided blocks) a store into a field of the deviation's target can
+// be reached — the branch goes on applying the statement, it does not refuse it.
+func (m *devModel) storesToTargetFrom(s *ssa.BasicBlock, avoid map[*ssa.BasicBlock]bool) bool {
+	seen := map[*ssa.BasicBlock]bool{}
+	stack := []*ssa.BasicBlock{s}
+	for len(stack) > 0 {
+		x := stack[len(stack)-1]
+		stack = stack[:len(stack)-1]
+		if seen[x] || avoid[x] {
+			continue
+		}
+		seen[x] = true
+		for _, in := range x.Instrs {
+			if st, isS := in.(*ssa.Store); isS {
+				if _, ok := m.targetFieldPath(st.Addr); ok {
+					return true
+				}
+			}
+		}
+		stack = append(stack, x.Succs...)
+	}
+	return false
 }
